@@ -668,7 +668,21 @@ pub fn gen_conc(rng: &mut Rng, profile: ConcProfile, thorough: bool) -> (Plan, s
             for g in &groups {
                 let n = prng.range(4, max_ops) as usize;
                 let mut c = vec![];
+                // in a third of the plans a writer also overwrites / deletes PART of its group (the
+                // same-tag oracle then leaves that group alone; the oracle "the group shows a state
+                // that exists between two writes of its only writer" covers it)
+                let partial = prng.fork("partial").chance(1, 3);
+                let mut qrng = prng.fork("partial-items");
                 for _ in 0..n {
+                    if partial && qrng.chance(1, 3) {
+                        let v = tags.val(&mut qrng, &vp);
+                        let del = qrng.chance(1, 4);
+                        let items: Vec<(usize, Option<crate::plan::Val>)> = g.iter().filter(|_| qrng.chance(1, 2)).map(|k| (*k, if del { None } else { Some(v.clone()) })).collect();
+                        if !items.is_empty() {
+                            c.push(Op::Batch { items });
+                            continue;
+                        }
+                    }
                     if prng.chance(1, 8) {
                         c.push(Op::Batch { items: g.iter().map(|k| (*k, None)).collect() });
                     } else {
